@@ -218,3 +218,70 @@ def train(training_file, ruledir, encoding='utf-8', ngram=4, coverage=0.6, alpha
             return False, buf.getvalue()
         ok = run_trainer(info, ruledir)
     return bool(ok), buf.getvalue()
+
+
+# ------------------------------------------------------------------------------------------------
+# running the real command line tools in the snapshot
+
+def install_ruleset(spec_or_dir, name):
+    """put a ruleset under <snapshot>/Rules/<name> (the CLIs resolve rules relative to their file)"""
+    snap = snapshot()
+    dst = os.path.join(snap, 'Rules', name)
+    if isinstance(spec_or_dir, dict):
+        write_ruleset(dst, spec_or_dir)
+    else:
+        if os.path.exists(dst):
+            shutil.rmtree(dst)
+        shutil.copytree(spec_or_dir, dst)
+    return dst
+
+
+def run_cli(script, args, stdin='pipe-open', input_bytes=None, timeout=120, env_extra=None):
+    """stdin: 'pipe-open' (a pipe that stays open and silent), 'pipe-eof' (closed at once), 'devnull',
+    'closed' (fd 0 closed), 'pipe-input' (input_bytes then the pipe stays open),
+    'pipe-input-eof' (input_bytes then EOF).  Returns (stdout bytes, stderr bytes, returncode)."""
+    snap = snapshot()
+    env = dict(os.environ)
+    env['PYTHONIOENCODING'] = 'utf-8'
+    env['PYTHONHASHSEED'] = env.get('PYTHONHASHSEED', '0')
+    env[GUARD] = '1'
+    if env_extra:
+        env.update(env_extra)
+    cmd = [sys.executable, os.path.join(snap, script)] + list(args)
+    kw = dict(stdout=subprocess.PIPE, stderr=subprocess.PIPE, cwd=snap, env=env)
+    if stdin == 'devnull':
+        p = subprocess.Popen(cmd, stdin=subprocess.DEVNULL, **kw)
+        out, err = p.communicate(timeout=timeout)
+        return out, err, p.returncode
+    if stdin == 'closed':
+        p = subprocess.Popen(cmd, stdin=None, close_fds=True, preexec_fn=lambda: os.close(0), **kw)
+        out, err = p.communicate(timeout=timeout)
+        return out, err, p.returncode
+    p = subprocess.Popen(cmd, stdin=subprocess.PIPE, **kw)
+    try:
+        if stdin in ('pipe-input', 'pipe-input-eof') and input_bytes:
+            p.stdin.write(input_bytes)
+            p.stdin.flush()
+        if stdin in ('pipe-eof', 'pipe-input-eof'):
+            p.stdin.close()
+        # read both pipes to the end without closing stdin
+        import threading
+        bufs = {}
+
+        def rd(name, f):
+            bufs[name] = f.read()
+        ts = [threading.Thread(target=rd, args=('out', p.stdout)), threading.Thread(target=rd, args=('err', p.stderr))]
+        for t in ts:
+            t.start()
+        p.wait(timeout=timeout)
+        for t in ts:
+            t.join(timeout=10)
+        return bufs.get('out', b''), bufs.get('err', b''), p.returncode
+    finally:
+        try:
+            if p.poll() is None:
+                p.kill()
+            if p.stdin and not p.stdin.closed:
+                p.stdin.close()
+        except Exception:
+            pass
